@@ -48,7 +48,7 @@ CONSTANTS
   ReadMaxs,         \* MaxSeq values tried by service-layer forward reads (0 = unset, 99 = MaxUint64)
   SyncStarts,       \* StartSeq values tried by SyncMessages
   SyncEnds,         \* EndSeq values tried by SyncMessages
-  CapZeroUnbounded, \* TRUE: the code's behaviour when the committed cap is 0 (finding); FALSE: intended
+  CapZeroUnbounded, \* TRUE: the code's behaviour at committed cap 0 before /repo 8a300f740 (finding, fixed); FALSE: intended
   LastUncapped      \* TRUE: the code's ReadChannelLastVisible (no committed cap; finding); FALSE: intended
 
 VARIABLES
@@ -193,8 +193,10 @@ StoreRev(from, mn, mx, lim) ==
 \* pkg/cluster/channels readLocalCommitted: floor and committed cap computed by the caller.
 Floor == Max2(metaRet, local)
 Cap   == IF cfg.minISR <= 1 THEN leo ELSE ckpt
-\* unb = TRUE is what the code does when the cap is 0 (MaxSeq 0 reaches the store, which reads
-\* it as "no cap": known finding); unb = FALSE is the intended behaviour (nothing is visible).
+\* unb = TRUE is what the code did when the cap is 0 until /repo 8a300f740 (MaxSeq 0 reached the
+\* store, which reads it as "no cap": finding C10:committed-cap-zero-passed-to-store-as-unbounded);
+\* unb = FALSE is the intended, and now implemented, behaviour (nothing is visible).  The
+\* deviation stays in the module so that a regression is recognised and named (ev.alt).
 SvcU(from, mx, lim, rev, unb) ==
   LET mn  == Floor + 1
       mx1 == IF mx = 0 \/ mx > Cap THEN Cap ELSE mx
